@@ -33,7 +33,9 @@ def install_executor_recorder():
             if id(p) not in CURRENT.done and all(st == OperatorState.COMPLETED for st in p.runtime_status().operator_states.values()):
                 CURRENT.done.add(id(p))
                 newly.append(p)
-        CURRENT.exec.append({"asg": list(assignments), "sus": list(suspensions), "results": list(res), "done": newly})
+        complete = [k for k, p in enumerate(CURRENT.pipelines)
+                    if all(st == OperatorState.COMPLETED for st in p.runtime_status().operator_states.values())]
+        CURRENT.exec.append({"asg": list(assignments), "sus": list(suspensions), "results": list(res), "done": newly, "complete": complete})
         return res
 
     Executor.run_one_tick = run_one_tick
